@@ -150,16 +150,16 @@ def absent_probes(rng, names):
 def witness(raw, entries, situation, extra):
     w = {"entries": [e.describe() for e in entries], "manifest": situation}
     if len(raw) < 3000:
-        w["zip_hex"] = raw.hex()
+        w["zip"] = raw  # stored as {"hex": ..., "len": ...}
     else:
         w["zip_len"] = len(raw)
     w.update(extra)
     return w
 
 
-def check_one(ctx, apkmod, rng, entries0, situation, comment, kinds, sample=False):
+def check_one(ctx, apkmod, rng, entries0, situation, comment, kinds, sample=False, prebuilt=None):
     APK, FileNotPresent = apkmod.APK, apkmod.FileNotPresent
-    entries, raw = assemble(rng, entries0, situation, comment)
+    entries, raw = prebuilt if prebuilt is not None else assemble(rng, entries0, situation, comment)
     probs = apkw.self_check(raw, entries, comment)
     if probs:
         ctx.inconclusive("apkw self-check failed: %s" % probs[:3])
@@ -337,3 +337,33 @@ def run(ctx):
     ctx.require_counter("get_file_present", 1000)
     ctx.require_counter("get_file_absent", 1000)
     ctx.min_distinct = 50
+
+
+def replay_shard(ctx, arg):
+    """re-run stored witnesses: the archive bytes (zip_hex) when stored, else an archive rebuilt from the stored entry names"""
+    import io
+    import zipfile
+    from androguard.core import apk as apkmod
+    rng = ctx.rng("c34-replay")
+    for w in arg:
+        situation = w.get("manifest", "absent")
+        if "zip" in w and len(w["zip"]["hex"]) == 2 * w["zip"]["len"]:
+            raw = bytes.fromhex(w["zip"]["hex"])
+            with zipfile.ZipFile(io.BytesIO(raw)) as z:
+                entries = [apkw.Entry(zi.filename, z.read(zi), zi.compress_type, comment=zi.comment) for zi in z.infolist()]
+                comment = z.comment
+            check_one(ctx, apkmod, rng, None, situation, comment, [], sample=True, prebuilt=(entries, raw))
+        else:
+            es = [apkw.Entry(e["name"], b"" if e["name"].endswith("/") else b"replay:" + e["name"].encode("utf-8"), apkw.DEFLATED if e["method"] == "deflated" else apkw.STORED)
+                  for e in w["entries"] if e["name"] not in ("AndroidManifest.xml",)]
+            check_one(ctx, apkmod, rng, es, situation if situation != "garbage" else "absent", b"", [], sample=True)
+        ctx.sig("replay", len(ctx.sigs))
+
+
+def replay(ctx, path):
+    import json
+    with open(path) as f:
+        j = json.load(f)
+    ctx.rule = "replay of the stored witnesses of mechanism %s" % j.get("mechanism")
+    ctx.min_distinct = 1
+    ctx.run_shards(MOD, "replay_shard", [j["witnesses"]], timeout=300)
